@@ -164,7 +164,7 @@ def _build(spec):
         if ttf:
             pen = TTGlyphPen(dict.fromkeys(order))
         else:
-            pen = T2CharStringPen(None if adv == default else adv - nominal, None)
+            pen = T2CharStringPen(None if adv == default and not spec.get("explicit_width") else adv - nominal, None)
         if shape is not None and shape[0] == "comp":
             if ttf:
                 pen.addComponent(shape[1], (1, 0, 0, 1, shape[2], shape[3]))
@@ -281,7 +281,12 @@ def _char_scenario(rnd, flavour, n_fonts, disjoint):
             glyphs.append((name, 0xE000 + 16 * fi + j, ("comp", base[0], 30 + j, 15), 700 + fi))
         rnd.shuffle(glyphs)
         nominal, default = rnd.choice(((0, 0), (500, 600), (107, 1000), (630, 500)))
-        specs.append({"flavour": flavour, "glyphs": glyphs, "family": "F%d" % fi, "nominal": nominal, "default": default})
+        if rnd.random() < 0.5:                   # the default width is the advance of some glyphs of THIS font
+            default = rnd.choice([g[3] for g in glyphs])
+        # explicit_width: charstrings spell their width out even when it equals defaultWidthX (legal, and common
+        # in fonts whose Private dict was edited after the charstrings were written)
+        specs.append({"flavour": flavour, "glyphs": glyphs, "family": "F%d" % fi, "nominal": nominal, "default": default,
+                      "explicit_width": rnd.random() < 0.5})
     return specs
 
 
